@@ -304,7 +304,9 @@ func runC06(ch *Choices, cfg *RunCfg) (o *Outcome) {
 	policy := []int{polRandom, polRoundRobin, polPCT}[ch.Pick([]int{60, 20, 20}, "policy")]
 	meanQ := []int{1, 3, 10, 100, 1000}[ch.Intn(5, "meanq")]
 	s := NewSched(ch, policy, meanQ)
-	s.MaxSteps = 4_000_000
+	// liveness bound, not a performance budget: generous, and proportional to the stream (a stream with two
+	// lists of 20000 elements is a quarter of a megabyte)
+	s.MaxSteps = 4_000_000 + 1000*uint64(expBuf.Len())
 	pipe := &Pipe{s: s, ch: ch}
 	pipe.maxDelay = []int{0, 0, 20, 400}[ch.Intn(4, "pipe.maxdelay")]
 	pipe.cutP = []int{0, 20, 60, 100}[ch.Intn(4, "pipe.cutp")]
